@@ -14,20 +14,18 @@
   per pair of source rows `ls ∈ l.rows`, `rs ∈ r.rows` with present join values.
 
   WHICH THRESHOLDS ARE ACCEPTED (`threshold_accepted_iff`, `threshold_accepted_values`).  `overlap_join` validates its
-  threshold through the OverlapFilter constructor, whose test is `if threshold <= 0: raise AssertionError`.  So
-  accepted are exactly the values `v` for which Python's `v <= 0` is false:
+  threshold through the OverlapFilter constructor, whose (repaired) test is `if not threshold > 0: raise AssertionError`.
+  So accepted are exactly the values `v` for which Python's `v > 0` is true:
     * an int `k`   iff `0 < k`;      * a float `q` iff `0 < q` (fractional values such as 1.5 included);
     * `float('inf')` (model: `PyV.inf`) IS accepted — handled explicitly: the law holds with it on either side
       (`overlap_refinement_any_threshold` does not exclude it), and as a threshold it makes the result contain no pair
       of present rows at all (`overlap_inf_threshold_no_pairs`);
     * NaN has no counterpart among the model's Python values (`PyV` has no NaN), so it is outside this statement
-      (in Python `nan <= 0` is false, so NaN passes the validation, and every later comparison with it is false —
-      the same situation as `inf`);
+      (in Python `nan > 0` is false, so NaN is now rejected by the validation, like every value not `> 0`);
     * `True` is accepted and compares as 1 (`bool` is a number in Python and in `PyV.numVal?`).
-  For values that are not numbers (str, None) Python's `v <= 0` raises TypeError, whereas the model's `PyV.leb`
-  answers false, i.e. the model's validation lets them through; the theorem below is true of the model for them as
-  well (every comparison with them is false, both results contain no present pair), but carries no information about
-  the real code there.
+  Values that are not numbers (str, None) are rejected in the model (`PyV.gtb` answers false for them, so
+  `not v > 0` holds: AssertionError; `threshold_rejected_non_number`); in Python `v > 0` raises TypeError for them —
+  rejected either way, with a different exception class, which this file does not claim anything about.
 
   THE ORDER ON THRESHOLDS.  "`v₁` is laxer than `v₂`" is `PyV.leb v₁ v₂ = true`: Python's `v₁ <= v₂`, which on ints and
   floats in any combination compares the exact numeric values (`threshold_le_iff`: `.int 1 ≤ .float 1.5 ≤ .int 2`).
@@ -51,22 +49,31 @@ open SSJ SSJ.Props SSJ.EntryLaws
 /-! ## accepted thresholds and their order -/
 
 /-- The OverlapFilter constructor (through which `overlap_join` validates) accepts exactly: a Tokenizer object, a
-    threshold `v` for which Python's `v <= 0` is false, and one of the operators `>=`, `>`, `=`. -/
+    threshold `v` for which Python's `v > 0` is true, and one of the operators `>=`, `>`, `=`. -/
 theorem threshold_accepted_iff (v : PyV) (op : String) (am : Bool) (t : TokObj) (f : OverlapFilterObj) :
     mkOverlapFilter v op am t = .ok f ↔
-      t.isTokenizer = true ∧ PyV.leb v (.int 0) = false ∧ op ∈ [">=", ">", "="] ∧
+      t.isTokenizer = true ∧ PyV.gtb v (.int 0) = true ∧ op ∈ [">=", ">", "="] ∧
         f = { overlapSize := v, compOp := op, allowMissing := am } := by
   rw [mkOverlapFilter_ok_iff, overlapThr_valid_iff, Ne, Gen.validate_comp_op_for_sim_measure_sim op "OVERLAP" (by decide),
     not_not]
 
 /-- … which for the numeric values means: an int or float threshold must be positive; `inf` passes. -/
 theorem threshold_accepted_values :
-    (∀ k : Int, PyV.leb (.int k) (.int 0) = false ↔ 0 < k) ∧
-    (∀ q : Rat, PyV.leb (.float q) (.int 0) = false ↔ 0 < q) ∧
-    PyV.leb .inf (.int 0) = false := by
+    (∀ k : Int, PyV.gtb (.int k) (.int 0) = true ↔ 0 < k) ∧
+    (∀ q : Rat, PyV.gtb (.float q) (.int 0) = true ↔ 0 < q) ∧
+    PyV.gtb .inf (.int 0) = true := by
   refine ⟨fun k => ?_, fun q => ?_, rfl⟩
   · rw [← overlapThr_valid_iff]; exact overlapThr_valid_int k
   · rw [← overlapThr_valid_iff]; exact overlapThr_valid_float q
+
+/-- … and a value that is not a number (a string, `None`) is never accepted. -/
+theorem threshold_rejected_non_number (v : PyV) (hv : PyV.numVal? v = Option.none) (op : String) (am : Bool)
+    (t : TokObj) (f : OverlapFilterObj) : mkOverlapFilter v op am t ≠ .ok f := by
+  intro h
+  have h2 := ((threshold_accepted_iff v op am t f).1 h).2.1
+  rcases (gtb_zero_iff v).1 h2 with ⟨x, hx, -⟩ | rfl
+  · rw [hv] at hx; cases hx
+  · cases hv
 
 /-- Python's `<=` between int and float thresholds, in any combination, is the order of the exact numeric values;
     every finite number is `<= inf`, and `inf` is `<=` no finite number. -/
